@@ -10,6 +10,43 @@ from ..model import call_name, const_value, is_self_attr, kwarg, short, walk_no_
 BIV = 'copulas.bivariate.base.Bivariate'
 
 
+def inverse_composition(ctx, rep):
+    """Clayton's closed-form inverse composed with its conditional CDF, on narrow boxes: h(ppf(y, v), v) must meet y."""
+    from ..ivkind import IV, evaluate
+    from .ivcases import HI, LO, Q
+    cls = ctx.prog.cls(Q['Clayton'])
+    fn = cls.lookup('percent_point')
+    if fn is None or fn.cls is not cls:
+        rep.undecided('D4.values', cls.lookup('percent_point'), 'percent_point', 'Clayton has no closed-form percent_point of its own', construct='Clayton: h(ppf(y,v),v)=y')
+        return 1
+    thetas = [IV(0.1, 0.12), IV(0.5, 0.55), IV(1.0, 1.1), IV(2.0, 2.1), IV(4.0, 4.2), IV(7.5, 8.0)]
+    k = 20 if ctx.thorough else 10
+    cuts = [LO + (HI - LO) * i / k for i in range(k + 1)]
+    cells = [IV(a, b) for a, b in zip(cuts, cuts[1:])]
+    dom = (IV(LO, HI), IV(LO, HI))
+    cache = ctx.memo.setdefault('ivcases', {}).setdefault('dom', {})
+    total = und = 0
+    for th in thetas:
+        for y in cells:
+            for v in cells:
+                total += 1
+                for u, definite, _ in evaluate(ctx, cls, 'percent_point', th, y, v, alts=True, domain=dom, domcache=cache):
+                    if not isinstance(u, IV) or u.nan or not definite:
+                        und += 1
+                        continue
+                    uu = IV(max(u.lo, 0.0), min(u.hi, 1.0)) if u.lo <= 1.0 and u.hi >= 0.0 else u
+                    for h, d2, _ in evaluate(ctx, cls, 'partial_derivative', th, uu, v, alts=True, domain=(IV(0.0, 1.0), IV(LO, HI)), domcache=cache):
+                        if isinstance(h, IV) and d2 and (h.nan == 2 or h.lo > y.hi + 1e-9 or h.hi < y.lo - 1e-9):
+                            rep.bad('D4.values', fn, fn.node.name, f'for theta in {th}, y in {y}, v in {v} percent_point lies in {u} and '
+                                    f'partial_derivative of that lies in {h}: it cannot equal y', construct='Clayton: h(ppf(y,v),v)=y')
+                            return 1
+                        if not isinstance(h, IV):
+                            und += 1
+    rep.undecided('D4.values', fn, fn.node.name, f'partial_derivative(percent_point(y, v), v) = y: not refuted on any of {total} narrow boxes '
+                  '(a relation between input and output; intervals can refute it, not prove it)', construct='Clayton: h(ppf(y,v),v)=y')
+    return 1
+
+
 def run(ctx, rep):
     prog = ctx.prog
     rep.trust(*K.TRUSTED_BASE_COMMON, 'scipy.optimize.brentq(f, a, b) returns a point of [a, b] and requires f to return a scalar',
@@ -29,7 +66,8 @@ def run(ctx, rep):
     cl = ivcases.ppf_clauses()
     n = ivcases.run_family_clauses(ctx, rep, 'D4.values', 'percent_point', cl[:1], ('Clayton',))
     n += ivcases.run_family_clauses(ctx, rep, 'D4.values', 'percent_point', cl[1:], ('Gumbel', 'Independence'))
-    rep.floor('D4.values', 'family x clause evaluations', n, 3)
+    n += inverse_composition(ctx, rep)
+    rep.floor('D4.values', 'family x clause evaluations', n, 4)
     fn = prog.method(BIV, 'percent_point', inherited=False)
     yp, vp = fn.params[1], fn.params[2]
     loops = [n for n in walk_no_nested(fn.node) if isinstance(n, ast.For)]
